@@ -192,6 +192,17 @@ func c11Prop(st *CaseStats, fam int) func(t *rapid.T) {
 				t.Fatalf("%s:\n  %v", desc, err)
 			}
 			labels = append(labels, "public-merger")
+			if rapid.Bool().Draw(t, "keptWriter") {
+				pmSegs, pmDrops := []segment.Segment{c.Seg, mem}, []*roaring.Bitmap{nil, nil}
+				g, _, err := PublicMerge(pmSegs, pmDrops, 0)
+				if err != nil {
+					t.Fatalf("%s: public merge: %v", desc, err)
+				}
+				if err := keptWriterMerges(pmSegs, pmDrops, g, 5000+c.Exp.N%7); err != nil {
+					t.Fatalf("%s:\n  %v", desc, err)
+				}
+				labels = append(labels, "kept-bufio-destination")
+			}
 		}
 		if c.Merged {
 			labels = append(labels, "merged")
